@@ -37,7 +37,10 @@ def getExplicit (n : Node) (k : Str) : Option Node :=
 def indexInt (n : Node) (i : Nat) : Option Node :=
   match n with
   | .seq _ xs => xs[i]?
-  | .map _ m => mapGet m (.value Span.dflt (.int i))
+  | .map _ m =>
+    -- `i64::try_from(idx)`: an index that does not fit an `i64` is the documented panic, it never
+    -- wraps around to a negative key
+    if i < 2 ^ 63 then mapGet m (.value Span.dflt (.int i)) else none
   | _ => none
 def asSequenceGet (n : Node) (i : Nat) : Option Node :=
   match n with
